@@ -32,7 +32,7 @@ def variants(rng, toks, n):
     out.append(('explicit', full))
     for _ in range(n):
         lo = genjs.Layout(rng.choice(['spaced', 'wild', 'min']), drop_semi=rng.choice([0.3, 0.6, 1.0]),
-                          unicode_terms=True, unicode_spaces=False)
+                          unicode_terms=True, unicode_spaces=False, comment_lines=rng.choice([0.0, 0.0, 0.4]))
         out.append(('omitted', genjs.render(rng, toks, lo)))
     return out
 
@@ -75,6 +75,16 @@ def run(ctx):
             'var a\nvar b', 'var a = 1\n, b', 'throw\na', 'break\nx', 'for(a\n;b;c);', 'for(a;b\n;c);', 'a = b\n/c/d', 'a\n/re/.test(b)',
             'function f(){return\n}', 'continue\n', 'a\r\nb', 'a b', 'a b', '({}\n)', 'a;\n;b', 'if(a)\nelse b', 'while(a)\nb',
             'a\n.b', 'a\n,b', 'i\n--\nj', 'debugger\ndebugger', '{}\n[1]', 'x = function(){}\n(y)']
+    # restricted productions and ordinary insertions with several terminators, blank lines and whole-line comments between
+    # the two tokens (one insertion, never two; explicit and omitted forms must read the same)
+    SEPS = ['\n\n', '\n \n', '\r\n\r\n', '\n//c\n', '\n/*c*/\n', '\n//c\n//d\n', ' //c\n', '\n\n\n', '\u2028\u2029', '\n\t\n//c\n\n']
+    for sep in SEPS:
+        for semi in ('', ';'):
+            hand += ['function f(){return%s%sx}' % (semi, sep), 'function f(){return%s%s}' % (semi, sep),
+                     'while(1){break%s%s}' % (semi, sep), 'while(1){continue%s%sx}' % (semi, sep),
+                     'a:while(1){break a%s%sx}' % (semi, sep), 'switch(a){case 1:break%s%scase 2:}' % (semi, sep),
+                     'function f(){throw a%s%sx}' % (semi, sep), 'a%s%sb' % (semi, sep), 'var a%s%svar b' % (semi, sep),
+                     'do x%s%swhile(y)' % (semi, sep), 'if(a)b%s%selse c' % (semi, sep), 'a = b%s%s++c' % (semi, sep)]
     # a token that spans several lines is NOT a line terminator between its neighbours: no insertion after it
     for lt in ('\n', '\r', '\r\n', '\u2028', '\u2029'):
         hand += ["a = 'x\\%sy' b = 1" % lt, "a = 'x\\%sy'\nb = 1" % lt, "a = 'x\\%sy'; b = 1" % lt, "f('p\\%sq') g()" % lt,
